@@ -151,7 +151,9 @@ Witnesses == {
   \* D4: br_if to the function label clobbers local 0
   << C32(42), C32(0), BrIf(0), Drop, LGet(0), End >>,
   \* D5: the preserving copy of a local.set inside a loop runs again on the next iteration and overwrites the preserved value
-  << LGet(0), Lop(0), C32(5), LSet(0), LGet(1), C32(-1), Bin(2, "add"), LTee(1), BrIf(0), End, End >> }
+  << LGet(0), Lop(0), C32(5), LSet(0), LGet(1), C32(-1), Bin(2, "add"), LTee(1), BrIf(0), End, End >>,
+  \* D6: the condition of a br_if is the value a not-taken br_if to the same block left in the block's result register
+  << Blk(2), LGet(0), LGet(1), C32(0), BrIf(0), BrIf(0), Drop, C32(3), End, End >> }
 
 B32 == { I32(0), I32(1), I32(2), I32(-1), I32(-2), MIN32, MaxVal(2), I32(31), I32(32), I32(33), I32(65535), I32(65536), I32(-65536), <<21845, 21845>> }
 B64 == { I64(0), I64(1), I64(-1), I64(-2), MinVal(4), MaxVal(4), I64(63), I64(64), I64(65), <<0, 0, 1, 0>>, <<65535, 65535, 0, 0>>,
